@@ -93,7 +93,15 @@ def _impl(ns):
         o._offset, o._seqid, o._seq_len = v["offset"], "a", v["seq_len"]
         return o
 
-    return mod, construct, raw
+    seq_cls = sequence.Sequence if ns == "old" else new_sequence.Sequence
+
+    def wrap(o):
+        """a Sequence object around the view `o` (only `_seq` is read by annotation_offset / parent_coordinates)"""
+        q = seq_cls.__new__(seq_cls)
+        q._seq = o
+        return q
+
+    return mod, construct, raw, wrap
 
 
 def _view_state(o):
@@ -105,7 +113,7 @@ class _Skip(Exception):
 
 
 def _py_call(impl, fn, q):
-    mod, construct, raw = impl
+    mod, construct, raw, wrap = impl
     try:
         if fn == "inputValsPos":
             return list(mod._input_vals_pos_step(q["n"], q["a"], q["b"], q["c"]))
@@ -128,6 +136,13 @@ def _py_call(impl, fn, q):
             return o.absolute_position(q["x"], include_boundary=q["flag"])
         if fn == "relativePosition":
             return o.relative_position(q["x"], stop=q["flag"])
+        if fn == "annotationOffset":
+            return wrap(o).annotation_offset
+        if fn == "parentCoordinates":
+            sid, a, b, strand = wrap(o).parent_coordinates()
+            if sid != "a":
+                raise ValueError(f"seqid {sid!r} is not the view's")      # the component the translation drops (A5)
+            return [a, b, strand]
         if fn == "zeroSlice":
             return _view_state(o._zero_slice)
         if fn == "copy":
@@ -196,7 +211,7 @@ def _rand_state(rng, huge):
 
 def _rand_reachable(rng, impl, huge):
     """a state produced by the real constructor (satisfies the invariant)"""
-    _, construct, _ = impl
+    _, construct, _, _ = impl
     n = rng.randint(0, 10**15) if huge else rng.randint(0, 12)
     arg = (lambda: rng.choice([None, _huge(rng), rng.randint(-n - 2, n + 2)])) if huge else (
         lambda: rng.choice([None, rng.randint(-n - 3, n + 3)]))
@@ -215,7 +230,7 @@ def _cases(ctx, ns, impl):
     for n, a, b, c in itertools.product(range(0, 4), arg6, arg6, (None, 0, 1, 2, -1, -2)):
         for sl in (None, n, n + 1, 0):
             cases.append(("mk", dict(n=n, a=a, b=b, c=c, off=0, sl=sl)))
-    unary = ["len", "isReversed", "parentStart", "parentStop", "zeroSlice", "copy"] + (["richDictBounds"] if ns != "data" else [])
+    unary = ["len", "isReversed", "parentStart", "parentStop", "zeroSlice", "copy", "annotationOffset", "parentCoordinates"] + (["richDictBounds"] if ns != "data" else [])
     for v in _states_small():
         for fn in unary:
             cases.append((fn, dict(v=v)))
@@ -238,7 +253,7 @@ def _cases(ctx, ns, impl):
             cases.append(("getitemSlice", dict(v=v, a=a, b=b, c=c)))
     # seeded random: arbitrary and reachable states, small and huge integers
     fns = ["getIndex", "absolutePosition", "relativePosition", "getitemInt", "getitemSlice", "fwdFromFwd", "fwdFromRev",
-           "revFromFwd", "revFromRev", "len", "parentStart", "parentStop", "copy", "zeroSlice"] + (
+           "revFromFwd", "revFromRev", "len", "parentStart", "parentStop", "copy", "zeroSlice", "annotationOffset", "parentCoordinates"] + (
         ["richDictBounds"] if ns != "data" else [])
     for _ in range(ctx.budget(9000, 120000)):
         huge = rng.random() < 0.35
